@@ -117,6 +117,16 @@ func genPositionsG3(rng *hx.Rng, n int, tier string, emit func(hx.Input)) {
 			cnt++
 		}
 	}
+	// a quarter of the rest: random castling / pawn-on-2nd-and-7th-rank / en-passant placements (the
+	// generator of stream c05): promotions with and without capture on every file, rights in every state
+	special := (n - cnt) / 4
+	for k := 0; k < special; {
+		if p := castleish(rng); p != nil {
+			out(*p)
+			k++
+			cnt++
+		}
+	}
 	if cnt < n {
 		posgen.Stream(rng, n-cnt, out)
 	}
